@@ -401,7 +401,8 @@ def finish(pid, tier, seed, cov, viol, t0, replay_prefix):
             lib.report_known(pid, hit[0]["signature"])
             continue
         real.append((kind, payload, msg))
-    lib.write_evidence(pid, tier, seed, cov, time.time() - t0, violations=len(real))
+    if replay_prefix != "replayed":      # a --replay run re-executes one saved counterexample, it is not a check run
+        lib.write_evidence(pid, tier, seed, cov, time.time() - t0, violations=len(real))
     if real:
         for i, (kind, payload, msg) in enumerate(real[:3]):
             path = lib.save_replay(pid, "%s-seed%d-%s-%d.json" % (replay_prefix, seed, kind, i), payload)
@@ -609,8 +610,12 @@ def c07_plan(tier, seed):
         later = -1
         if altair >= 0 and rng.random() < 0.5:
             later = altair + rng.randint(0, 3)
+        if i < 2:     # pinned: the altair upgrade and at least two period boundaries happen inside the chain
+            altair, later = (1, -1) if i == 0 else (0, 1)
+            p["EPOCHS_PER_SYNC_COMMITTEE_PERIOD"] = 2
         plan.append({"kind": "chain", "chain": nxt(), "P": p, "nvals": nvals(p), "altair": altair, "later": later,
-                     "epochs": rng.randint(5, 8) if q else rng.randint(6, 14), "seed": rng.randrange(1 << 40)})
+                     "epochs": 8 if i < 2 else (rng.randint(5, 8) if q else rng.randint(6, 14)),
+                     "seed": rng.randrange(1 << 40)})
     return plan
 
 
